@@ -35,6 +35,7 @@ var substs = map[string]subst{
 // per-file substitutions (file base name -> selector -> replacement)
 var fileSubsts = map[string]map[string]subst{
 	"tcpdialer.go": {"net.Dialer": {"simnet", "verif/simrt/simnet", "Dialer"}},
+	"prefork.go":   {"os/exec.Cmd": {"simexec", "verif/simrt/simexec", "Cmd"}},
 }
 
 var sharedImporter types.Importer
